@@ -49,7 +49,7 @@ class Exec:
     atomic region"""
 
     def __init__(self, progs, peer_win, peer_max=4096):
-        self.rig = lib_chan.Rig(32768, peer_win, peer_max, 3)
+        self.rig = lib_chan.Rig(32768, peer_win, peer_max, 3, stmt_gates=True)
         self.progs = [list(p) for p in progs]
         self.reqs = ["init 32768 %d %d 3 0" % (peer_win, peer_max)]
         self.impl = [self.rig.view()]
@@ -77,8 +77,13 @@ class Exec:
             pass    # the transport no longer dispatches to a channel it has dropped (transport loss before)
         elif op.startswith("pclose"):
             self.pclose_done = True
+        if op.startswith("shut2"):      # shutdown(2) = shutdown(0) then shutdown(1): two model actions
+            self.reqs.append("shutr")
+            self.impl.append("*")
+            op = "shutw " + op.split()[1]
         self.reqs.append(op)
-        self.impl.append(self.rig.view())
+        self.impl.append("*" if op.startswith("gate") or any(lt.state == "stmtgate" for lt in self.rig.threads)
+                         else self.rig.view())
 
     def advance(self, t):
         lt = self.rig.threads[t]
@@ -96,6 +101,8 @@ class Exec:
             self.do("wake %d 0" % t)
         elif lt.state == "gotbytes":
             self.do("check %d" % t)
+        elif lt.state == "stmtgate":
+            self.do("gate %d" % t)
 
     def blocked(self, t):
         """a waiting thread whose wake-up would change nothing (window still closed, channel open)"""
@@ -229,6 +236,13 @@ def run(ctx):
                 "shutdown on the dead channel; plus random schedules with closes. distinct = distinct (programs, "
                 "window, order); non-trivial = a close-like region ran while another thread was mid-call")
     ctx.trust("threading.Lock/Condition semantics (see C19)")
+    # ---- (T) lock-region table generated from the AST of channel.py: which EOF/CLOSE decision sites hold self.lock
+    import paramiko.channel as chmod
+    from pv import lib_chanlock
+    sites, notifies = lib_chanlock.channel_tables(chmod.Channel)
+    ctx.write_generated("ChanLock", lib_chanlock.lean_tables(sites, notifies))
+    ctx.extra["decision_sites"] = ["%s:%s:%s" % (x["caller"], x["target"], "locked" if x["eff"] else "UNLOCKED")
+                                   for x in sites if x["caller"] != "__init__"]
     ctx.build(extra_modules=["PV.Model.ChanDriver"])
     rng = ctx.rng
     batches = []
@@ -278,6 +292,23 @@ def run(ctx):
                     ctx.sample(case)
     ctx.extra["interleavings_exhaustive_per_combination"] = bool(exhaustive_all)
 
+    # ---- pairs of EOF/CLOSE deciders at statement granularity (gate between the flag check and the flag write of
+    #      _send_eof / _close_internal, taken whenever the thread does not hold the channel lock)
+    deciders = ["shutw", "shut2", "close", "pclose", "reqfail"]
+    for a, b in itertools.product(deciders, deciders):
+        for third in ([], ["shutw 0"], ["close 0"]):
+            progs = [list(third), ["%s 1" % a], ["%s 2" % b]]
+            orders, complete = interleavings(progs, 32768, 400, rng)
+            for order in orders:
+                ex = run_order(progs, order, 32768)
+                case = {"deciders": [a, b] + third, "order": order, "schedule": ex.reqs[1:], "wire": ex.rig.wire}
+                ctx.case(("pair", a, b, tuple(third), tuple(order)), True)
+                ctx.dist("decider-pair-schedules")
+                if any(r.startswith("gate") for r in ex.reqs):
+                    ctx.dist("statement-gate-taken-outside-the-lock")
+                judge(ctx, ex, case)
+                batches.append((case, ex.reqs, ex.impl))
+
     # ---- random schedules with closes
     for i in range(3000 if ctx.thorough else 400):
         nthr = rng.choice([2, 3])
@@ -312,7 +343,11 @@ META = {
     "level": ("Proved in Lean for every schedule: at most one EOF and one CLOSE exist (written or held), EOF iff eof_sent "
               "(eof_close_at_most_once); a peer CLOSE on an open channel leaves the handler holding [EOF?, CLOSE], "
               "closes and releases the channel, on a closed one sends nothing and releases it "
-              "(peer_close_answered_and_released, released_implies_closed); once closed with EOF out no action of any "
+              "(peer_close_answered_and_released, released_implies_closed); the lock regions treated as atomic are the "
+              "ones in the source: decision_sites_locked (table generated from the AST of channel.py on every run: every "
+              "call of _send_eof/_close_internal/_set_closed and every write of eof_sent/closed is under self.lock), "
+              "decided_once_if_all_locked / eof_decided_once_at_statement_level (statement-granular check-then-set "
+              "model), unlocked_site_double_emit_witness; once closed with EOF out no action of any "
               "thread creates a message and send raises (dead_channel_sends_nothing, send_on_closed_raises); nothing "
               "is reserved after EOF is decided (no_reservation_after_eof). PARTIAL for 'no data after EOF/CLOSE': "
               "C22_partial proves it for schedules in which EOF was not decided while a writer held a reservation; "
